@@ -112,6 +112,9 @@ class UVLWriter(ModelToText):
             result = str(value).lower()
         elif isinstance(value, list):
             result = f'[{", ".join(cls.serialize_value(v) for v in value)}]'
+            if len(value) == 1 and result[1:-1].isdigit():
+                # '[5]' would be read as a cardinality: keep the vector apart from that token
+                result = f'[{result[1:-1]} ]'
         elif isinstance(value, dict):
             items = [safename(str(k)) if v is None else f'{safename(str(k))} {cls.serialize_value(v)}'
                      for k, v in value.items()]
